@@ -185,6 +185,75 @@ type NulBytes struct {
 	O *[]byte
 }
 
+// unions of every representation in every slot that commits through a finish callback or a copy
+type USP struct {
+	Str *string
+	Col *string
+}
+type MapUK struct {
+	Keys   []string
+	Values map[string]UKeyed
+}
+type MapUD struct {
+	Keys   []string
+	Values map[string]UKinded
+}
+type MapUS struct {
+	Keys   []string
+	Values map[string]USP
+}
+type MapUKP struct {
+	Keys   []string
+	Values map[string]*UKeyed
+}
+type MapUKN struct {
+	Keys   []string
+	Values map[string]*UKeyed
+}
+type MapUDN struct {
+	Keys   []string
+	Values map[string]*UKinded
+}
+type MapUSN struct {
+	Keys   []string
+	Values map[string]*USP
+}
+type UU struct {
+	K *UKeyed
+	D *UKinded
+	P *USP
+	S *string
+}
+type UKO struct {
+	K *UKeyed
+	P *USP
+	N *int64
+}
+type ListU struct {
+	K  []UKeyed
+	D  []UKinded
+	P  []USP
+	KN []*UKeyed
+	DN []*UKinded
+	PN []*USP
+}
+type FldU struct {
+	K  UKeyed
+	D  UKinded
+	P  USP
+	Ok *UKeyed
+	Od *UKinded
+	Op *USP
+	Nk *UKeyed
+	Nd *UKinded
+	Np *USP
+}
+type ListMapU struct {
+	L []MapUK
+	S []MapUS
+}
+type NulKind struct{ N *UKinded }
+
 // inferred-schema witnesses
 type DupLists struct {
 	X []string
@@ -247,6 +316,23 @@ type RenChain struct { Id Int (rename "Name") Name String (rename "Title") Title
 type RenSwap struct { A Int (rename "B") B String (rename "A") }
 type RenCycle struct { Id optional Int (rename "Name") Name optional String (rename "Title") Title String (rename "Id") }
 type NulBytes struct { B nullable Bytes L nullable [String] O optional Bytes }
+type USP union { | String "s:" | ColS "c:" } representation stringprefix
+type MapUK {String:UKeyed}
+type MapUD {String:UKinded}
+type MapUS {String:USP}
+type MapUKP {String:UKeyed}
+type MapUKN {String:nullable UKeyed}
+type MapUDN {String:nullable UKinded}
+type MapUSN {String:nullable USP}
+type UU union { | UKeyed "k" | UKinded "d" | USP "p" | String "s" } representation keyed
+type UKO union { | UKeyed map | USP string | Int int } representation kinded
+type LKN [nullable UKeyed]
+type LDN [nullable UKinded]
+type LPN [nullable USP]
+type ListU struct { K [UKeyed] D [UKinded] P [USP] KN LKN DN LDN PN LPN }
+type FldU struct { K UKeyed D UKinded P USP Ok optional UKeyed Od optional UKinded Op optional USP Nk nullable UKeyed Nd nullable UKinded Np nullable USP }
+type ListMapU struct { L [MapUK] S [MapUS] }
+type NulKind struct { N nullable UKinded }
 type DupLists struct { X [String] Y [String] }
 type InfA struct { X [String] }
 type InfB struct { Y [String] }
@@ -308,6 +394,20 @@ var typeTable = []typeEntry{
 	{"RenSwap", (*RenSwap)(nil), "RenSwap"},
 	{"RenCycle", (*RenCycle)(nil), "RenCycle"},
 	{"NulBytes", (*NulBytes)(nil), "NulBytes"},
+	{"USP", (*USP)(nil), "USP"},
+	{"MapUK", (*MapUK)(nil), "MapUK"},
+	{"MapUD", (*MapUD)(nil), "MapUD"},
+	{"MapUS", (*MapUS)(nil), "MapUS"},
+	{"MapUKP", (*MapUKP)(nil), "MapUKP"},
+	{"MapUKN", (*MapUKN)(nil), "MapUKN"},
+	{"MapUDN", (*MapUDN)(nil), "MapUDN"},
+	{"MapUSN", (*MapUSN)(nil), "MapUSN"},
+	{"UU", (*UU)(nil), "UU"},
+	{"UKO", (*UKO)(nil), "UKO"},
+	{"ListU", (*ListU)(nil), "ListU"},
+	{"FldU", (*FldU)(nil), "FldU"},
+	{"ListMapU", (*ListMapU)(nil), "ListMapU"},
+	{"NulKind", (*NulKind)(nil), "NulKind"},
 	{"DupLists", (*DupLists)(nil), "DupLists"},
 	{"InfA", (*InfA)(nil), "InfA"},
 	{"InfB", (*InfB)(nil), "InfB"},
